@@ -2,6 +2,7 @@
 import random
 from . import execsuite, gen_prog
 from .propbase import *
+from . import basesuites
 
 FRESH_SIMPLE = ["qux", "zed", "wombat", "lyric", "vinyl", "étoile", "über", "ölçer", "jalapeño", "riff", "chord", "snare", "elan"]
 FRESH_COMMON_PREFIX = ["my", "your", "the", "a", "an", "our"]
@@ -35,6 +36,7 @@ def fresh_names(rng, pools):
 
 def run(chk):
     proved = setup(chk, "C15")
+    basesuites.run_uni(chk)
     rng = rng_for(chk, 15)
     quick = chk.tier == "quick"
     n = 200 if quick else 2500
